@@ -16,7 +16,10 @@ import glob
 VERIF = os.path.dirname(os.path.dirname(os.path.abspath(__file__)))
 REPO = os.environ.get("VERIF_REPO", "/repo")
 BUILD = os.path.join(VERIF, "build")
-HARN = os.path.join(VERIF, "kani", "harness")
+HARN_SRC = os.path.join(VERIF, "kani", "harness")
+# harness sources are snapshotted into build/weave/harness by weave_kani(); everything that is
+# compiled refers to the snapshot, so editing kani/harness while a check runs cannot disturb it
+HARN = os.path.join(BUILD, "weave", "harness")
 
 # source file (relative to src/)  ->  list of (module name, harness file)
 MOUNTS = {
@@ -78,7 +81,7 @@ def _append_mounts(dst_src, cfg):
         lines = []
         for mod, hfile in mods:
             hp = os.path.join(HARN, hfile)
-            if not os.path.exists(hp):
+            if not os.path.exists(os.path.join(HARN_SRC, hfile)):
                 continue
             lines.append(f'\n#[cfg({cfg})]\n#[path = "{hp}"]\nmod {mod};\n')
         if lines:
@@ -119,6 +122,7 @@ def weave_kani():
     shutil.rmtree(stage, ignore_errors=True)
     os.makedirs(stage)
     shutil.copytree(os.path.join(REPO, "src"), os.path.join(stage, "src"))
+    shutil.copytree(HARN_SRC, os.path.join(stage, "harness"))
     appended = _append_mounts(os.path.join(stage, "src"), "kani")
     for rel in SHADOW_VEC:
         p = os.path.join(stage, "src", rel)
